@@ -462,6 +462,10 @@ def evalRule (env : Env) (rules : List Rule) (r : Rule) (tx : Tx) : Tx :=
 def removed (tx : Tx) (id : Nat) : Bool :=
   tx.rmIds.contains id || tx.rmRanges.any (fun rg => rg.1 ≤ id && id ≤ rg.2)
 
+/-- one evaluated rule: MATCHED_VARS reset (rulegroup.go:259), evaluation logged (ghost), Evaluate -/
+def evalOne (env : Env) (all : List Rule) (phase : Nat) (r : Rule) (tx : Tx) : Tx :=
+  evalRule env all r { tx with matchedVars := {}, evalLog := tx.evalLog ++ [(phase, r.id)] }
+
 /-- the rules loop; `all` is the complete rule list (for ctl…ByTag lookups) -/
 def rulesLoop (env : Env) (all : List Rule) (phase : Nat) : List Rule → Tx → Tx
   | [], tx => tx
@@ -476,16 +480,12 @@ def rulesLoop (env : Env) (all : List Rule) (phase : Nat) : List Rule → Tx →
     else
       match tx.allow with
       | .phase => tx
-      | .all => if phase == 5 then go r rs tx else tx
+      | .all => if phase == 5 then rulesLoop env all phase rs (evalOne env all phase r tx) else tx
       | .request =>
         if phase == 1 then tx
         else if phase == 2 then { tx with allow := .unset }
-        else go r rs tx
-      | .unset => go r rs tx
-where
-  go (r : Rule) (rs : List Rule) (tx : Tx) : Tx :=
-    let tx := { tx with matchedVars := {}, evalLog := tx.evalLog ++ [(phase, r.id)] }
-    rulesLoop env all phase rs (evalRule env all r tx)
+        else rulesLoop env all phase rs (evalOne env all phase r tx)
+      | .unset => rulesLoop env all phase rs (evalOne env all phase r tx)
 
 def evalPhase (env : Env) (rules : List Rule) (phase : Nat) (tx : Tx) : Tx :=
   let tx := rulesLoop env rules phase rules { tx with lastPhase := phase }
